@@ -92,6 +92,20 @@ func Bytes(label string, maxLen int) []byte {
 	}
 	return []byte(s)
 }
+// Garbage is model-chosen bytes that start with 0xFF: no protobuf, base64 or base58 decoder accepts them.
+func Garbage(label string, maxLen int) []byte {
+	s, ok := m.Strings[key(label)]
+	if !ok || len(s) == 0 || s[0] != 0xff {
+		return []byte{0xff}
+	}
+	return []byte(s)
+}
+
+// NonCanonical returns a different byte string that protobuf decodes to the same message: the encoding
+// twice (scalar fields: last one wins; sub-messages: merged field by field). Only for messages without
+// repeated fields.
+func NonCanonical(b []byte) []byte { return append(append([]byte{}, b...), b...) }
+
 func Assume(b bool) {
 	if !b {
 		panic("vf.Assume violated natively: model does not satisfy harness assumption")
